@@ -80,17 +80,128 @@ Definition quantifiable (u : bool) (l : list N) : bool :=
   | _ => false
   end.
 
-(* backslash x as an atom: CharacterClassEscape, ControlEscape or IdentityEscape[?U] *)
-Definition escape_ok (u : bool) (x : N) : bool :=
-  character_class_escape x || control_escape x || identity_escape u x.
-
+(* ---- escapes (the units after the backslash) ---- *)
+Definition starts_digit (r : list N) : bool := match r with d :: _ => decimal_digit d | [] => false end.
+Definition starts_letter (r : list N) : bool := match r with d :: _ => control_letter d | [] => false end.
+(* exactly n hex digits: (their value, rest) *)
+Fixpoint hex_run (n : nat) (l : list N) (acc : N) : option (N * list N) :=
+  match n with
+  | O => Some (acc, l)
+  | S n => match l with
+           | c :: r => if hex_digit c then hex_run n r (16 * acc + hex_digit_value c) else None
+           | [] => None
+           end
+  end.
+Definition sp_fixed_hex (n : nat) (l : list N) : bool * list N :=
+  match hex_run n l 0 with Some (_, r) => (true, r) | None => (false, l) end.
+(* HexLeadSurrogate `\u` HexTrailSurrogate *)
+Definition sp_surrogate_pair (l : list N) : bool * list N :=
+  match hex_run 4 l 0 with
+  | Some (v, r1) =>
+      if lead_surrogate v then
+        match r1 with
+        | b :: x :: r2 =>
+            if (b =? g_backslash) && (x =? 117) then
+              match hex_run 4 r2 0 with
+              | Some (w, r3) => if trail_surrogate w then (true, r3) else (false, l)
+              | None => (false, l)
+              end
+            else (false, l)
+        | _ => (false, l)
+        end
+      else (false, l)
+  | None => (false, l)
+  end.
+Fixpoint span_hex (l : list N) : list N * list N :=
+  match l with
+  | c :: r => if hex_digit c then let '(ds, r') := span_hex r in (c :: ds, r') else ([], l)
+  | [] => ([], [])
+  end.
+Definition hex_step (a d : N) : N := 16 * a + hex_digit_value d.
+Definition hex_value (ds : list N) : N := fold_left hex_step ds 0.
+(* `{` CodePoint `}` *)
+Definition sp_codepoint (l : list N) : SR bool :=
+  match l with
+  | c :: r =>
+      if c =? g_lbrace then
+        let '(ds, r1) := span_hex r in
+        if is_nil ds then SOk false l else
+        match r1 with
+        | c1 :: r2 => if (c1 =? g_rbrace) && (hex_value ds <=? 1114111) then SOk true r2 else SOk false l
+        | [] => SOk false l
+        end
+      else SOk false l
+  | [] => SOk false l
+  end.
+(* HexEscapeSequence; `x` without two hex digits is an error with u, left to IdentityEscape without *)
+Definition sp_hex_esc (u : bool) (l : list N) : SR bool :=
+  match l with
+  | c :: r =>
+      if c =? 120 then
+        let '(b, r') := sp_fixed_hex 2 r in
+        if b then SOk true r' else if u then SErr else SOk false l
+      else SOk false l
+  | [] => SOk false l
+  end.
+(* RegExpUnicodeEscapeSequence[?U] *)
+Definition sp_unicode_esc (u : bool) (l : list N) : SR bool :=
+  match l with
+  | c :: r =>
+      if c =? 117 then
+        let '(b1, r1) := if u then sp_surrogate_pair r else (false, r) in
+        if b1 then SOk true r1 else
+        let '(b2, r2) := sp_fixed_hex 4 r in
+        if b2 then SOk true r2 else
+        match (if u then sp_codepoint r else SOk false r) with
+        | SOk true r3 => SOk true r3
+        | SOk false _ => if u then SErr else SOk false l
+        | SErr => SErr
+        | SFuel => SFuel
+        end
+      else SOk false l
+  | [] => SOk false l
+  end.
+(* AtomEscape, in the order consume_atom_escape tries the alternatives; SOk false (no escape here) only without u *)
+Definition sp_atom_escape (u : bool) (l : list N) : SR bool :=
+  match l with
+  | [] => if u then SErr else SOk false l
+  | c :: r =>
+      if character_class_escape c then SOk true r
+      else if control_escape c then SOk true r
+      else if (c =? 99) && starts_letter r then SOk true (tl r)
+      else if (c =? 48) && negb (starts_digit r) then SOk true r
+      else
+        match sp_hex_esc u l with
+        | SOk true r' => SOk true r'
+        | SOk false _ =>
+            match sp_unicode_esc u l with
+            | SOk true r' => SOk true r'
+            | SOk false _ =>
+                (* `0` before a digit is a legacy octal escape (without u), not in the fragment's grammar *)
+                if identity_escape u c && negb (c =? 48) then SOk true r else if u then SErr else SOk false l
+            | SErr => SErr
+            | SFuel => SFuel
+            end
+        | SErr => SErr
+        | SFuel => SFuel
+        end
+  end.
 (* backslash AtomEscape *)
 Definition sp_escape (u : bool) (l : list N) : SR bool :=
   match l with
-  | c :: x :: r' => if c =? g_backslash then (if escape_ok u x then SOk true r' else SErr) else SOk false l
-  | [c] => if c =? g_backslash then SErr else SOk false l
+  | c :: r =>
+      if c =? g_backslash then
+        match sp_atom_escape u r with
+        | SOk true r' => SOk true r'
+        | SOk false _ => SOk false l
+        | SErr => SErr
+        | SFuel => SFuel
+        end
+      else SOk false l
   | [] => SOk false l
   end.
+(* Annex B: a backslash before `c` *)
+Definition bs_c (l : list N) : bool := match l with b :: c :: _ => (b =? g_backslash) && (c =? 99) | _ => false end.
 
 Section Knot.
 Variable u : bool.
@@ -140,7 +251,13 @@ Definition sp_atom (l : list N) : SR bool :=
   | [] => SOk false l
   | c :: r =>
       if c =? g_dot then SOk true r
-      else if c =? g_backslash then sp_escape u l
+      else if c =? g_backslash then
+        match sp_escape u l with
+        | SOk true r' => SOk true r'
+        | SOk false _ => if bs_c l then SOk true r else SOk false l
+        | SErr => SErr
+        | SFuel => SFuel
+        end
       else if c =? g_lparen then
         match r with
         | q :: r' =>
@@ -241,17 +358,20 @@ Definition sp_pattern (u : bool) (l : list N) : SR unit :=
 Definition recognises (u : bool) (l : list N) : bool := match sp_pattern u l with SOk _ _ => true | _ => false end.
 
 (* ---- the fragment ----
-   A left-to-right scan of the units:
-     a backslash must be followed by a unit other than a decimal digit and c k x u p P (back-references, control
-         letters, named references, hex/unicode/property escapes are outside the fragment); the escaped unit is skipped;
+   A left-to-right scan of the units, in the mode u:
+     a backslash is followed by a unit x, which is skipped, where
+         x is not one of the digits 1-9 (back-references / legacy octal escapes are outside the fragment),
+         with u: x is not one of k p P (named references and property escapes are outside the fragment),
+         without u: if x is 0, the unit after it is not a decimal digit (legacy octal);
      every other unit is any unit but an opening bracket `[` (classes are outside the fragment);
      `(?<` is followed by `=` or `!` (a look-behind, not a named group);
      where `{` starts a syntactically complete `{n}` `{n,}` `{n,m}`, the bounds are below 2^63 (the implementation
          accumulates them in saturating 64-bit arithmetic, the grammar compares the unbounded values). *)
 Definition plain_char (c : N) : bool := negb (c =? g_lbracket).
-Definition is_dec_digit (c : N) : bool := (48 <=? c) && (c <=? 57).
-Definition allowed_after_backslash (x : N) : bool :=
-  negb (is_dec_digit x) && negb (existsb (N.eqb x) [99; 107; 120; 117; 112; 80]).
+Definition nonzero_digit (c : N) : bool := (49 <=? c) && (c <=? 57).
+Definition allowed_after_backslash (u : bool) (x : N) (r : list N) : bool :=
+  negb (nonzero_digit x) &&
+  (if u then negb (existsb (N.eqb x) [107; 112; 80]) else negb ((x =? 48) && starts_digit r)).
 Definition bound_limit : N := 9223372036854775808.
 Definition braces_small (l : list N) : bool :=
   match sp_braced l with
@@ -269,12 +389,12 @@ Definition local_ok (c : N) (r : list N) : bool :=
   | _ => true
   end.
 (* esc = the previous unit was an (unescaped) backslash *)
-Fixpoint scan (esc : bool) (l : list N) : bool :=
+Fixpoint scan (u esc : bool) (l : list N) : bool :=
   match l with
   | [] => negb esc
   | c :: r =>
-      if esc then allowed_after_backslash c && scan false r
-      else if c =? g_backslash then scan true r
-      else plain_char c && local_ok c r && scan false r
+      if esc then allowed_after_backslash u c r && scan u false r
+      else if c =? g_backslash then scan u true r
+      else plain_char c && local_ok c r && scan u false r
   end.
-Definition in_fragment (u : bool) (l : list N) : bool := scan false l.
+Definition in_fragment (u : bool) (l : list N) : bool := scan u false l.
